@@ -67,6 +67,25 @@ Theorem C17_complete :
 Proof. exact C17_complete. Qed.
 Print Assumptions C17_complete.
 
+(* ... nor is a cycle among what the VALIDATION targets of the statements met need (validation
+   nodes are extra roots; a validation edge itself is not part of the cycle relation) ... *)
+Theorem C17_complete_validations :
+  forall (g : graph) (w : world) (targets c : list node),
+    closed_walk_via g (manifest_ins g) c ->
+    (forall x, hd_error c = Some x -> reach_val g targets x) ->
+    forall s p, scan g w targets <> ScanOk s p.
+Proof. exact C17_complete_validations. Qed.
+Print Assumptions C17_complete_validations.
+
+Example C17_complete_validations_nonvacuous :
+  closed_walk_via ValidationCycleExample.g (manifest_ins ValidationCycleExample.g) [1; 2; 1] /\
+  reach_val ValidationCycleExample.g [0] 1 /\
+  scan ValidationCycleExample.g ValidationCycleExample.w [0] = ScanCycle [1; 2; 1].
+Proof.
+  split; [exact ValidationCycleExample.cyc|]. split; [exact ValidationCycleExample.reach|].
+  exact ValidationCycleExample.reported.
+Qed.
+
 (* ... the scan always ends in one of the three diagnoses (never "out of fuel") ... *)
 Theorem C17_complete_kinds :
   forall (g : graph) (w : world) (targets c : list node),
